@@ -229,7 +229,28 @@ type c19FanCase struct {
 	Images   bool  `json:"images"` // WithImagesResolved instead of WithServicesTransform
 }
 
+// c19ErrSettle is how long the harness waits after a failing callback has returned before it releases the next
+// one: the operation records the error right after the callback returns, in a goroutine the harness cannot watch.
+var c19ErrSettle = 200 * time.Microsecond
+
+// c19FanCheck: "which error came first" depends on that wait being long enough. A busy machine can deschedule the
+// recording goroutine for longer, so a `not-first-error` verdict is only believed when it persists with waits of
+// 5 ms and 100 ms (an operation that really returns another error than the first does so whatever the wait).
 func c19FanCheck(c *Ctx, cs c19FanCase) *Failure {
+	f := c19FanCheckOnce(c, cs)
+	for _, d := range []time.Duration{5 * time.Millisecond, 100 * time.Millisecond} {
+		if f == nil || f.Sig != "c19:fanout-not-first-error" {
+			return f
+		}
+		c.Label("fan:first-error-verdict-repeated-with-longer-wait")
+		c19ErrSettle = d
+		f = c19FanCheckOnce(c, cs)
+		c19ErrSettle = 200 * time.Microsecond
+	}
+	return f
+}
+
+func c19FanCheckOnce(c *Ctx, cs c19FanCase) *Failure {
 	if cs.N < 0 || cs.N > 8 {
 		return nil
 	}
@@ -344,7 +365,7 @@ func c19FanCheck(c *Ctx, cs c19FanCase) *Failure {
 			runtime.Gosched()
 		}
 		if e != nil {
-			time.Sleep(200 * time.Microsecond) // let the error be recorded before the next one can be
+			time.Sleep(c19ErrSettle) // let the error be recorded before the next one can be
 		}
 		select {
 		case r := <-done:
